@@ -58,7 +58,7 @@ def plan(pid, tier):
         "C01": [job("C01", "race", timeout=1500, parts=8)],
         "C02": [job("C02", "race", timeout=1500, parts=8)],
         "C03": [job("C03", "race", timeout=1500, parts=8), job("GATED", "race", arg="C03", timeout=1500, parts=4), job("C03D", "race", timeout=900, parts=2)],
-        "C04": [job("C04", "race", timeout=1500, parts=8), job("GATED", "race", arg="C04", timeout=1500, parts=4), job("C04K", "race", timeout=600)],
+        "C04": [job("C04", "race", timeout=1500, parts=8), job("GATED", "race", arg="C04", timeout=1500, parts=4), job("C04K", "race", timeout=600), job("C04R", "race", timeout=600)],
         "C13": [job("C13", "race", timeout=1500, parts=8), job("GATED", "race", arg="C13", timeout=1500, parts=4)],
         "C17": [job("C17", "race", timeout=1500, parts=8), job("GATED", "race", arg="C17", timeout=1500, parts=4)],
         "C05": [job("C05X", "race", timeout=1500, parts=8), job("GATED", "race", arg="C05", timeout=1500, parts=4), job("C05S", "race", timeout=1500, parts=6)],
